@@ -722,6 +722,19 @@ class Program:
         f = call.func
         if self.is_evaluator_call(unit, call):
             return ('evaluator', None)
+        # self.__class__(...) / type(self)(...) / cls(...): the enclosing class
+        owner_expr = None
+        if isinstance(f, ast.Attribute) and f.attr == '__class__' and isinstance(f.value, ast.Name):
+            owner_expr = f.value.id
+        elif isinstance(f, ast.Call) and isinstance(f.func, ast.Name) and f.func.id == 'type' \
+                and len(f.args) == 1 and isinstance(f.args[0], ast.Name):
+            owner_expr = f.args[0].id
+        elif isinstance(f, ast.Name):
+            owner_expr = f.id if self._is_cls_param(unit, f.id) else None
+        if owner_expr is not None:
+            oc = self._self_class(unit, owner_expr)
+            if oc is not None:
+                return ('class', oc)
         if isinstance(f, ast.Name):
             d = self.resolve_name(unit, f.id)
             return self._callee_of_def(d, f.id)
@@ -776,6 +789,16 @@ class Program:
                 return u.cls
             u = u.parent
         return None
+
+    def _is_cls_param(self, unit, name):
+        u = unit
+        while u is not None:
+            if u.is_method() and u.is_classmethod() and u.params and u.params[0] == name:
+                return True
+            if name in u.locals:
+                return False
+            u = u.parent
+        return False
 
     def _self_class(self, unit, name):
         """if ``name`` is the self (or cls) parameter of the method enclosing
